@@ -39,6 +39,11 @@ type vfC10Case struct {
 	ExitErr   bool       `json:"exitErr"` // client process returns an error instead of nil
 	ReadStdin bool       `json:"readStdin"`
 	Procs     int        `json:"procs"`
+	// SlowExit: the client process lingers after its last write / after being aborted until the harness has
+	// looked at the runner's state (a process that is slow to die)
+	SlowExit bool `json:"slowExit"`
+	// PostClose: one more request (a fresh name) is offered right after closeSend, before the responses are awaited
+	PostClose bool `json:"postClose"`
 }
 
 func vfC10Name(i int) string { return fmt.Sprintf("verif/c10/case-%d", i) }
@@ -98,8 +103,27 @@ func vfC10Run(c vfC10Case) (hist *vfC10History, facts map[string]string, viol er
 		}
 	}
 	clientReturned := make(chan struct{})
-	clientFunc := func(ctx context.Context, _ []string, in io.ReadCloser, out, _ io.WriteCloser) error {
+	release := make(chan struct{})
+	var clientBody func(ctx context.Context, _ []string, in io.ReadCloser, out, _ io.WriteCloser) error
+	clientFunc := func(ctx context.Context, args []string, in io.ReadCloser, out, errOut io.WriteCloser) error {
 		defer close(clientReturned)
+		err := clientBody(ctx, args, in, out, errOut)
+		if c.SlowExit {
+			// the output stream ends here, the process itself takes its time; its stdin keeps accepting data
+			// meanwhile (like the pipe buffer of a real process), otherwise a blocked sender would hold the
+			// send lock that the reader's shutdown needs and the sampling point below would never be reached
+			_ = out.Close()
+			if !c.ReadStdin {
+				go func() { _, _ = io.Copy(io.Discard, in) }()
+			}
+			select {
+			case <-release:
+			case <-time.After(20 * time.Second):
+			}
+		}
+		return err
+	}
+	clientBody = func(ctx context.Context, _ []string, in io.ReadCloser, out, _ io.WriteCloser) error {
 		received := map[int]chan struct{}{}
 		for i := 0; i < c.Names; i++ {
 			received[i] = make(chan struct{})
@@ -225,7 +249,44 @@ func vfC10Run(c vfC10Case) (hist *vfC10History, facts map[string]string, viol er
 		}
 		wg.Wait()
 		runner.closeSend()
+		if c.PostClose {
+			// a request offered after the send side was closed is refused - and then its callback must stay silent
+			id := "postclose"
+			hist.mu.Lock()
+			hist.attempts[id] = c.Names
+			hist.order = append(hist.order, id)
+			hist.mu.Unlock()
+			err := runner.sendRequest(&conformancev1.ClientCompatRequest{TestName: vfC10Name(c.Names)}, func(name string, resp *conformancev1.ClientCompatResponse, err error) {
+				hist.mu.Lock()
+				hist.callbacks[id] = append(hist.callbacks[id], vfC10CB{name, resp, err})
+				hist.mu.Unlock()
+			})
+			hist.mu.Lock()
+			hist.sendRes[id] = err
+			hist.mu.Unlock()
+		}
+		// once the output reader is done: if it stopped because of a bad answer, the runner must say so at
+		// once, also while the process is still lingering (waitForResponses itself waits for the process)
+		sampled := make(chan struct{})
+		if cr, ok := runner.(*clientProcessRunner); ok && c.SlowExit {
+			go func() {
+				defer close(sampled)
+				select {
+				case <-cr.done:
+				case <-time.After(20 * time.Second):
+				}
+				running := runner.isRunning()
+				hist.mu.Lock()
+				facts["isRunningAfterWait"] = fmt.Sprint(running)
+				hist.mu.Unlock()
+				close(release)
+			}()
+		} else {
+			close(release)
+			close(sampled)
+		}
 		waitErr = runner.waitForResponses()
+		<-sampled
 		// after completion a further send must be refused
 		lateSendErr = runner.sendRequest(&conformancev1.ClientCompatRequest{TestName: "verif/c10/late"}, func(string, *conformancev1.ClientCompatResponse, error) {
 			hist.mu.Lock()
@@ -376,6 +437,13 @@ func vfC10Check(c vfC10Case) error {
 	if facts["client-never-returned"] == "true" {
 		return verifkit.Violf("client-not-stopped", "the client process function was never made to return\n%s", describe())
 	}
+	if hist.sendRes["postclose"] == nil && c.PostClose {
+		return verifkit.Violf("send-after-close-accepted", "a request offered after closeSend was accepted\n%s", describe())
+	}
+	if c.SlowExit && (fatal == "duplicate" || fatal == "unknown" || fatal == "oversize" || fatal == "garbage" || fatal == "truncated") &&
+		facts["waitErr"] != "<nil>" && facts["isRunningAfterWait"] == "true" {
+		return verifkit.Violf("still-running-after-fault", "the reader gave up on the client (%s: %s) but isRunning() is still true while the process lingers\n%s", fatal, facts["waitErr"], describe())
+	}
 	if facts["isRunning"] == "true" {
 		return verifkit.Violf("still-running", "isRunning() stays true although the client process has returned (fatal=%q)\n%s", fatal, describe())
 	}
@@ -426,6 +494,8 @@ func vfGenC10(t *rapid.T) vfC10Case {
 	for _, n := range ansOrder[:nans] {
 		c.Answers = append(c.Answers, vfAnswer{Kind: "valid", Name: n})
 	}
+	c.SlowExit = rapid.IntRange(0, 2).Draw(t, "slowExit") == 0
+	c.PostClose = rapid.IntRange(0, 2).Draw(t, "postClose") == 0
 	if rapid.IntRange(0, 1).Draw(t, "inject") == 0 {
 		kind := rapid.SampledFrom([]string{"duplicate", "unknown", "oversize", "garbage"}).Draw(t, "injectKind")
 		pos := rapid.IntRange(0, len(c.Answers)).Draw(t, "injectPos")
